@@ -243,6 +243,8 @@ class Ref:
                 return "unknown"  # KeyError part-way: documented to raise, state not determined
         for mr, c in items:
             mid, c = mr["id"], sign * c
+            if mr["t"] == "foreign" and mid not in self.mets and mid not in x["mets"]:
+                return "unknown"  # attributes come from the other model's object: judged by invariants + isolation
             if mid in x["mets"]:
                 x["mets"][mid] = x["mets"][mid] + c if combine else c
             else:
@@ -257,6 +259,16 @@ class Ref:
 
     def t_add_mets(self, op, env):
         return self._add_mets(op["r"], op["mets"], op.get("combine", True), 1)
+
+    def _foreign_mets_into(self, env, ymets):
+        """A reaction of another live model as operand: metabolites the model lacks are copied with their attributes."""
+        fm = getattr(env, "foreign_mets", None) or {}
+        for mid in ymets:
+            if mid not in self.mets:
+                if mid not in fm:
+                    return False
+                self.mets[mid] = copy.deepcopy(fm[mid])
+        return True
 
     def t_sub_mets(self, op, env):
         return self._add_mets(op["r"], op["mets"], op.get("combine", True), -1)
@@ -274,6 +286,9 @@ class Ref:
         if y is None:
             return "unknown"
         ymets = dict(y["mets"])
+        if op.get("src") == "foreign":
+            if not self._foreign_mets_into(env, ymets):
+                return "unknown"
         for mid in ymets:
             if mid not in self.mets:
                 return "unknown"
@@ -294,6 +309,9 @@ class Ref:
         if y is None:
             return "unknown"
         ymets = dict(y["mets"])
+        if op.get("src") == "foreign":
+            if not self._foreign_mets_into(env, ymets):
+                return "unknown"
         for mid in ymets:
             if mid not in self.mets:
                 return "unknown"
@@ -418,9 +436,13 @@ class Ref:
         specs = [s for s in op["rxns"] if s["id"] not in self.rxns]
         if len({s["id"] for s in specs}) != len(specs):
             return "raises"
+        if any(mr["t"] == "foreign" and mr["id"] not in self.mets for s in specs for mr, c in s["mets"] if c != 0):
+            return "unknown"  # attributes travel with the other model's object: invariants + isolation judge it
         for s in specs:
             mets = {}
             for mr, c in s["mets"]:
+                if c == 0:
+                    continue  # a zero coefficient never enters the (still model-less) reaction
                 mid = mr["id"]
                 if mid not in self.mets:
                     self.mets[mid] = {"name": mr.get("name", ""), "formula": mr.get("formula"),
